@@ -175,6 +175,18 @@ def _boolean_positions(caller) -> Set[int]:
     return out
 
 
+_PURE_NAMES = {"cast", "str", "len", "sorted", "list", "set", "tuple", "dict", "isinstance", "frozenset", "repr", "int", "bool"}
+
+
+def _pure_constructor(c: ast.Call) -> bool:
+    f = c.func
+    if isinstance(f, ast.Attribute) and isinstance(f.value, ast.Name) and f.value.id == "ast":
+        return True
+    if isinstance(f, ast.Name) and (f.id in _PURE_NAMES or f.id.startswith("generate_")):
+        return True
+    return False
+
+
 class _NoInline(Exception):
     pass
 
@@ -442,6 +454,8 @@ def _inline_into(h: _Helper, caller) -> int:
             if _call_of(h, e):
                 target = e
                 break
+            if isinstance(e, ast.Call) and _pure_constructor(e):
+                continue  # building an AST node / a builtin value has no effect the helper could observe
             if isinstance(e, (ast.Call, ast.Await, ast.Lambda, ast.ListComp, ast.SetComp, ast.DictComp, ast.GeneratorExp, ast.IfExp, ast.BoolOp, ast.NamedExpr)):
                 if any(_call_of(h, x) for x in ast.walk(e)):
                     return None  # the call sits under a lazy / repeated construct
